@@ -36,7 +36,8 @@ ASSUMPTIONS = ["only row-oriented lists are generated; shape-less forms list "
 TMP = c01.TMP
 
 ALL_FORMS = ["ndarray", "ndarray_int", "ndarray_bool", "ndarray_f32",
-             "lists", "triples", "triples_zeros", "dict", "dict_zeros",
+             "lists", "triples", "triples_zeros", "triples_min", "dict",
+             "dict_zeros",
              "list_arrays", "list_arrays_mixed", "list_dicts", "list_sparse",
              "list_sparse_csc", "list_sparse_coo", "list_sparse_lil",
              "csr", "csc", "coo",
@@ -147,6 +148,14 @@ def encode(rows, form):
              if a[i, j] != 0 or (form == "triples_zeros" and (i + j) % 2)]
         if not any(x[0] == n - 1 and x[1] == m - 1 for x in t):
             t.append([n - 1, m - 1, a[n - 1, m - 1]])
+        return t, {}
+    if form == "triples_min":
+        # only the non-zero cells, in row order (the shape comes from the
+        # ID lists; trailing all-zero rows / columns have no triple)
+        t = [[i, j, a[i, j]] for i in range(n) for j in range(m)
+             if a[i, j] != 0]
+        if not t:
+            t = [[0, 0, 0.0]]
         return t, {}
     if form in ("dict", "dict_zeros"):
         d = {(i, j): a[i, j] for i in range(n) for j in range(m)
@@ -547,3 +556,14 @@ REGRESSIONS = [
         {"t": "#", "q": "s1_q3", "tgt": "lib4_1", "desc": False},
         {"t": "S", "q": "Samp3_q4", "tgt": "otu3_x", "desc": False}]},
 ]
+
+
+def _tall(n):
+    """More than 1024 rows (block-wise converters)."""
+    rows = [[float((i * 7 + j * 3) % 5) for j in range(2)] for i in range(n)]
+    return {"part": "forms", "dtype": "float", "rows": rows,
+            "forms": ["ndarray", "csr", "lists", "triples_min",
+                      "list_arrays", "list_sparse", "dict"], "md": False}
+
+
+REGRESSIONS += [_tall(1100), _tall(2050)]
